@@ -149,6 +149,8 @@ func runC18(w *core.World, r *core.Report) {
 	r.Rule("R6", "State.Language set non-nil only behind LanguageFromCode success")
 	r.Rule("R7", "Vm.Run resets FLAG_LANG before every instruction, unconditionally (documented lifetime: next instruction)")
 	r.Rule("R8", "language-scoped lookups are not memoised in the shared Resource objects")
+	r.Rule("R12", "State.SetLanguage reports success only after storing a language (no acknowledged-and-dropped switch)")
+	r.Rule("R11", "whether the engine injects the language depends on State.Language alone (a language already on the caller context is replaced)")
 	r.Rule("R10", "the configured default language is applied only when the session has none (behind 'no state yet' or State.Language == nil, here or at every call site)")
 	r.Rule("R9", "after every successful call of external code the LANG flag is tested and State.SetLanguage applied on its set edge (in the invoker or in each of its callers)")
 
@@ -353,6 +355,8 @@ func runC18(w *core.World, r *core.Report) {
 	}
 	// ---- R10 ----------------------------------------------------------------------------------
 	checkConfigLanguageOnlyWhenNone(w, r, "R10")
+	checkSetLanguageAlwaysSets(w, r, "R12")
+	checkInjectionDependsOnSessionLanguageOnly(w, r, "R11")
 
 	// ---- R3 -----------------------------------------------------------------------------------
 	nw, nr := 0, 0
